@@ -41,6 +41,15 @@ type LoopSpec struct {
 	Havoc      []string // extra modifies hints
 }
 
+func (ls *LoopSpec) usesLoopEntry() bool {
+	for _, cl := range ls.Invariants {
+		if strings.Contains(cl.Text, "loopentry(") || strings.Contains(cl.Text, "frameRows(") {
+			return true
+		}
+	}
+	return false
+}
+
 type Block struct {
 	Kind    string // func, iface, extern, spec, ghost, pred
 	Name    string
@@ -78,7 +87,7 @@ type SpecFile struct {
 var blockKW = map[string]bool{"func": true, "iface": true, "extern": true, "spec": true, "ghost": true, "pred": true, "lemma": true, "data": true, "axiom": true}
 var clauseKW = map[string]bool{"requires": true, "ensures": true, "invariant": true, "assigns": true, "nopanic": true, "mode": true, "inline": true,
 	"pure": true, "assumed": true, "loop": true, "props": true, "trace": true, "fresh": true, "assume": true, "unroll": true, "class": true,
-	"noinline": true, "returns": true, "event": true, "havoc": true, "panics": true, "bounded": true, "check": true, "opaque": true, "maxpaths": true, "frame": true, "modifies": true, "reads": true, "trusted": true, "ghostset": true, "ghostvar": true, "cbrequires": true, "cbupdate": true, "aftercall": true, "borrowed": true, "precall": true, "trustcalls": true, "callbacks": true, "params": true, "defer": true, "expectfail": true}
+	"noinline": true, "returns": true, "event": true, "havoc": true, "panics": true, "bounded": true, "check": true, "opaque": true, "maxpaths": true, "frame": true, "modifies": true, "reads": true, "trusted": true, "ghostset": true, "ghostvar": true, "cbrequires": true, "cbupdate": true, "aftercall": true, "assumeafter": true, "borrowed": true, "precall": true, "trustcalls": true, "callbacks": true, "params": true, "defer": true, "expectfail": true}
 
 func parseSpecFile(path string) ([]*Block, error) {
 	data, err := os.ReadFile(path)
@@ -167,7 +176,7 @@ func parseSpecFile(path string) ([]*Block, error) {
 				cur.Props = append(cur.Props, strings.Fields(strings.ReplaceAll(rest, ",", " "))...)
 			case "requires", "ensures", "assume", "check", "ghostvar", "borrowed", "precall":
 				cur.Clauses = append(cur.Clauses, cl)
-			case "cbrequires", "cbupdate", "aftercall":
+			case "cbrequires", "cbupdate", "aftercall", "assumeafter":
 				// "<param> [label] : expr"  /  "<param> : var = expr"
 				i := strings.Index(rest, ":")
 				if i < 0 {
@@ -206,7 +215,7 @@ func parseSpecFile(path string) ([]*Block, error) {
 		}
 		for _, cl := range all {
 			switch cl.Kind {
-			case "requires", "ensures", "invariant", "assume", "check", "cbrequires", "cbupdate", "aftercall", "borrowed", "precall":
+			case "requires", "ensures", "invariant", "assume", "check", "cbrequires", "cbupdate", "aftercall", "assumeafter", "borrowed", "precall":
 				e, err := parseSExpr(cl.Text)
 				if err != nil {
 					return nil, fmt.Errorf("%s:%d: %v in %q", cl.File, cl.Line, err, cl.Text)
@@ -784,6 +793,11 @@ func (p *sparser) primary() *SExpr {
 			e := p.expr()
 			p.expect(")")
 			return &SExpr{Op: "old", Args: []*SExpr{e}}
+		case "loopentry":
+			p.expect("(")
+			e := p.expr()
+			p.expect(")")
+			return &SExpr{Op: "loopentry", Args: []*SExpr{e}}
 		}
 		return &SExpr{Op: "ident", Name: t.text, Pos: t.pos}
 	case "op":
